@@ -1,1 +1,382 @@
-fn main() {}
+//! SIM-B: artifact store simulation (DESIGN.md section 6).
+mod c23;
+mod child;
+mod fsseam;
+mod gens;
+mod loaders;
+mod sandbox;
+
+use c23::{Eval, Init, PublishRun, Scenario};
+use child::{args_of, ChildSpec};
+use fsseam::{Fault, FaultKind};
+use gens::Gen;
+use qpz_core::evidence::{Counters, Evidence};
+use qpz_core::rng::{mix, Rng};
+use qpz_core::runner::{run_batch, BatchCfg};
+use qpz_core::{harness_error, Tier, EXIT_OK, EXIT_VIOLATION};
+use sandbox::Sandbox;
+use serde::{Deserialize, Serialize};
+use serde_json::json;
+use std::collections::HashSet;
+
+fn par_map<T: Sync, R: Send>(items: &[T], tag: &str, budget_s: u64, f: impl Fn(&mut Sandbox, &T) -> R + Sync) -> Vec<(usize, R)> {
+    let cfg = BatchCfg { first_run: 0, max_runs: items.len() as u64, budget_s, workers: qpz_core::workers(), stop_on_failure: false };
+    run_batch(&cfg, |w| Sandbox::new(&format!("{tag}{w}")), |sb, i| f(sb, &items[i as usize]), |_| false)
+        .into_iter()
+        .map(|(i, r)| (i as usize, r))
+        .collect()
+}
+
+fn seam_selftest() {
+    let mut sb = Sandbox::new("selftest");
+    let fs = sb.reset();
+    let run = sb.run_child(ChildSpec { action: "seam_selftest".into(), args: args_of(&[("dir", json!(fs.join("t").to_string_lossy()))]), ..Default::default() });
+    let Some(r) = run.result else { harness_error("seam self-test child died") };
+    if r.result != "ok" {
+        harness_error(&format!("seam self-test action failed: {} {}", r.result, r.error));
+    }
+    let ops: Vec<String> = r.trace.iter().map(|t| format!("{}:{}", t.op, t.path)).collect();
+    // every call std::fs makes for this sequence must arrive at the seam, in this order
+    let must = ["mkdir:t/a", "open_write:t/a/f", "write:t/a/f", "open_read:t/a/f", "read:t/a/f", "rename:t/a", "stat:t/b", "stat:t/a", "stat:t/b/f", "unlink:t/b/f", "open_write:t/b/g", "write:t/b/g", "unlink:t/b/g", "rmdir:t/b"];
+    let mut pos = 0;
+    for m in must {
+        match ops[pos..].iter().position(|o| o == m) {
+            Some(p) => pos += p + 1,
+            None => harness_error(&format!("filesystem seam self-test: expected intercept '{m}' not seen in order; trace = {ops:?}")),
+        }
+    }
+    // and a crash fault must kill the child inside the call
+    let fs = sb.reset();
+    let run = sb.run_child(ChildSpec { action: "seam_selftest".into(), args: args_of(&[("dir", json!(fs.join("t").to_string_lossy()))]), plan: vec![Fault { call: 3, kind: FaultKind::Crash }], ..Default::default() });
+    if run.kind() != "crash" || run.exit_code != Some(77) {
+        harness_error(&format!("filesystem seam self-test: crash fault did not kill the child (kind {}, exit {:?})", run.kind(), run.exit_code));
+    }
+    // and an errno fault must surface as an error
+    let fs = sb.reset();
+    let run = sb.run_child(ChildSpec { action: "seam_selftest".into(), args: args_of(&[("dir", json!(fs.join("t").to_string_lossy()))]), plan: vec![Fault { call: 0, kind: FaultKind::Errno { errno: 5 } }], ..Default::default() });
+    if run.kind() != "err" {
+        harness_error(&format!("filesystem seam self-test: errno fault did not surface (kind {})", run.kind()));
+    }
+}
+
+#[derive(Serialize, Deserialize)]
+struct ReplayFile {
+    property: String,
+    sim: String,
+    seed: u64,
+    class: String,
+    detail: String,
+    gens: Vec<(usize, Option<usize>)>,
+    scenario: Scenario,
+}
+
+const SHAPES: &[(usize, Option<usize>)] = &[(1, Some(1)), (2, Some(1)), (1, Some(2)), (1, None)];
+
+struct Acc {
+    evals: u64,
+    child_runs: u64,
+    probes: Counters,
+    fired: Counters,
+    states: HashSet<u64>,
+    nontrivial: HashSet<u64>,
+    samples: Vec<serde_json::Value>,
+    first: Option<(Scenario, String, String)>,
+}
+
+impl Acc {
+    fn add(&mut self, sc: &Scenario, ev: &Eval) {
+        if let Some(h) = &ev.harness_error {
+            harness_error(&format!("{h}; scenario {}", serde_json::to_string(sc).unwrap()));
+        }
+        self.evals += 1;
+        self.child_runs += ev.results.len() as u64;
+        self.probes.merge(&ev.probes);
+        self.fired.merge(&ev.faults_fired);
+        self.states.extend(ev.states.iter().copied());
+        let fired: u64 = ev.faults_fired.0.values().sum();
+        if fired > 0 {
+            self.nontrivial.insert(qpz_core::rng::hash_str(&serde_json::to_string(sc).unwrap()));
+        }
+        if self.first.is_none() {
+            if let Some((c, d)) = ev.findings.first() {
+                self.first = Some((sc.clone(), c.clone(), d.clone()));
+            }
+        }
+    }
+}
+
+fn check_c23(seed: u64, tier: Tier, replay: Option<String>) -> i32 {
+    let t0 = qpz_core::real_now_ns();
+    let gens: Vec<Gen> = gens::build_gens(SHAPES);
+    if let Some(path) = replay {
+        let rf: ReplayFile = serde_json::from_str(&std::fs::read_to_string(&path).unwrap_or_else(|e| harness_error(&format!("cannot read {path}: {e}")))).unwrap_or_else(|e| harness_error(&format!("bad replay file: {e}")));
+        let mut sb = Sandbox::new("replay");
+        let ev = c23::run_scenario(&mut sb, &gens, &rf.scenario);
+        for (i, r) in ev.results.iter().enumerate() {
+            println!("  run {i}: reported {r}");
+        }
+        for (c, d) in &ev.findings {
+            println!("replayed: class={c} {d}");
+        }
+        if ev.findings.iter().any(|(c, _)| c.starts_with("publish:")) {
+            println!("VIOLATION property=C23 replay={path}");
+            return EXIT_VIOLATION;
+        }
+        println!("replay: no violation on this tree");
+        return EXIT_OK;
+    }
+    println!("generations built at {:.1}s", (qpz_core::real_now_ns() - t0) as f64 / 1e9);
+    let mut acc = Acc { evals: 0, child_runs: 0, probes: Counters::default(), fired: Counters::default(), states: HashSet::new(), nontrivial: HashSet::new(), samples: vec![], first: None };
+
+    // ---- (a) complete enumeration of single and double faults of the publish routine ----
+    let baselines: Vec<Scenario> = c23::INITS.iter().map(|i| Scenario { init: *i, prev_gen: 0, runs: vec![PublishRun { new_gen: 1, plan: vec![], action: "commit".into() }], final_gen: None }).collect();
+    let base = par_map(&baselines, "enum", 0, |sb, sc| c23::run_scenario(sb, &gens, sc));
+    let mut singles: Vec<Scenario> = vec![];
+    let mut typical_calls = 0u64;
+    for (i, ev) in &base {
+        acc.add(&baselines[*i], ev);
+        let expect_ok = baselines[*i].init != Init::File;
+        if ev.harness_error.is_none() && (ev.results[0] == "ok") != expect_ok {
+            harness_error(&format!("fault-free publish from {:?} reported {} (precondition)", baselines[*i].init, ev.results[0]));
+        }
+        let calls = ev.traces[0].len() as u64;
+        typical_calls = typical_calls.max(calls);
+        for c in 0..calls {
+            for k in c23::all_single_kinds() {
+                let mut sc = baselines[*i].clone();
+                sc.runs[0].plan = vec![Fault { call: c, kind: k }];
+                singles.push(sc);
+            }
+        }
+    }
+    acc.samples.push(json!({"fault_free_publish_trace_from_existing_output": base.iter().find(|(i, _)| baselines[*i].init == Init::Dir).map(|(_, ev)| ev.traces[0].iter().map(|t| format!("{} {} {}", t.op, t.path, t.path2)).collect::<Vec<_>>())}));
+    let single_res = par_map(&singles, "enum", 0, |sb, sc| c23::run_scenario(sb, &gens, sc));
+    let mut pairs: Vec<Scenario> = vec![];
+    let quick = tier == Tier::Quick;
+    for (i, ev) in &single_res {
+        acc.add(&singles[*i], ev);
+        let f0 = &singles[*i].runs[0].plan[0];
+        if f0.kind == FaultKind::Crash || ev.traces.is_empty() {
+            continue;
+        }
+        // pairs: the first fault's errno set is reduced to the kinds the code branches on (plus EIO)
+        let first_ok = match &f0.kind {
+            FaultKind::Errno { errno } => c23::PAIR_ERRNOS.contains(errno) || !quick,
+            FaultKind::ShortWrite => false,
+            FaultKind::Crash => false,
+        };
+        if !first_ok {
+            continue;
+        }
+        // adaptive: the second index ranges over the calls of the realised sequence after the first fault
+        let realised = ev.traces[0].len() as u64;
+        for j in (f0.call + 1)..realised {
+            for k in c23::pair_second_kinds() {
+                let mut sc = singles[*i].clone();
+                sc.runs[0].plan.push(Fault { call: j, kind: k });
+                pairs.push(sc);
+            }
+        }
+    }
+    let n_singles = singles.len();
+    let pair_res = par_map(&pairs, "enum", 0, |sb, sc| c23::run_scenario(sb, &gens, sc));
+    for (i, ev) in &pair_res {
+        acc.add(&pairs[*i], ev);
+    }
+    let n_pairs = pairs.len();
+    if let Some((_, ev)) = pair_res.iter().find(|(_, ev)| ev.results.first().map(|r| r == "crash").unwrap_or(false)) {
+        let _ = ev;
+    }
+    if let Some((i, _)) = pair_res.first() {
+        acc.samples.push(json!({"double_fault_scenario": pairs[*i]}));
+    }
+    let enumerated = baselines.len() + n_singles + n_pairs;
+
+    println!("phase enumeration done at {:.1}s", (qpz_core::real_now_ns() - t0) as f64 / 1e9);
+    // ---- (b) seeded multi-run histories ----
+    let n_hist: u64 = if quick { 400 } else { 20_000 };
+    let hist_budget = if quick { 0 } else { qpz_core::budget_s(600) / 2 };
+    let hseeds: Vec<u64> = (0..n_hist).map(|i| mix(seed, 0x2300_0000 + i)).collect();
+    let hist_res = par_map(&hseeds, "hist", hist_budget, |sb, s| {
+        let mut r = Rng::new(*s);
+        let sc = c23::random_history(&gens[..3], &mut r, typical_calls);
+        let ev = c23::run_scenario(sb, &gens, &sc);
+        (sc, ev)
+    });
+    for (_, (sc, ev)) in &hist_res {
+        acc.add(sc, ev);
+    }
+    if let Some((_, (sc, ev))) = hist_res.iter().find(|(_, (_, ev))| ev.faults_fired.0.values().sum::<u64>() >= 2) {
+        acc.samples.push(json!({"history": sc, "reported": ev.results}));
+    }
+    let n_histories = hist_res.len();
+
+    println!("phase histories done at {:.1}s", (qpz_core::real_now_ns() - t0) as f64 / 1e9);
+    // ---- (c) the full pipeline (generate_all_circuit_binaries) with faults ----
+    let gbase: Vec<Scenario> = [Init::NoOutput, Init::Dir].iter().map(|i| Scenario { init: *i, prev_gen: 1, runs: vec![PublishRun { new_gen: 0, plan: vec![], action: "generate".into() }], final_gen: None }).collect();
+    let gb = par_map(&gbase, "gen", 0, |sb, sc| c23::run_scenario(sb, &gens, sc));
+    let mut gscen: Vec<Scenario> = vec![];
+    let mut grng = Rng::new(mix(seed, 0x23_6e6e));
+    for (i, ev) in &gb {
+        acc.add(&gbase[*i], ev);
+        if ev.results[0] != "ok" || !ev.findings.is_empty() {
+            harness_error(&format!("fault-free generate_all_circuit_binaries from {:?} reported {} / {:?} (precondition)", gbase[*i].init, ev.results[0], ev.findings));
+        }
+        let calls = ev.traces[0].len() as u64;
+        let first_rename = ev.traces[0].iter().position(|t| t.op == "rename").unwrap_or(calls as usize) as u64;
+        acc.probes.add("full_pipeline_calls", calls);
+        let n = if quick { 5 } else { 150 };
+        for k in 0..n {
+            // half of the faults in the generation phase, half in the publish phase
+            let call = if k % 2 == 0 { grng.below(first_rename.max(1)) } else { first_rename + grng.below((calls - first_rename).max(1)) };
+            let kinds = c23::all_single_kinds();
+            let kind = if k % 3 == 0 { FaultKind::Crash } else { grng.pick(&kinds).clone() };
+            let mut sc = gbase[*i].clone();
+            sc.runs[0].plan = vec![Fault { call, kind }];
+            // some with a second fault later on (possibly in the cleanup)
+            if k % 4 == 3 {
+                sc.runs[0].plan.push(Fault { call: call + 1 + grng.below(6), kind: FaultKind::Errno { errno: 5 } });
+            }
+            gscen.push(sc);
+        }
+    }
+    let gen_budget = if quick { 0 } else { qpz_core::budget_s(600) / 2 };
+    let gres = par_map(&gscen, "gen", gen_budget, |sb, sc| c23::run_scenario(sb, &gens, sc));
+    for (i, ev) in &gres {
+        acc.add(&gscen[*i], ev);
+    }
+    if let Some((i, ev)) = gres.first() {
+        acc.samples.push(json!({"full_pipeline_scenario": gscen[*i], "reported": ev.results}));
+    }
+    let n_gen = gres.len() + gb.len();
+
+    // ---- verdict ----
+    let wall = (qpz_core::real_now_ns() - t0) as f64 / 1e9;
+    let mut exit = EXIT_OK;
+    let mut violations = 0;
+    let mut replay_path = String::new();
+    if let Some((sc, class, detail)) = acc.first.clone() {
+        violations = 1;
+        // minimise: drop runs and faults while the same class persists
+        let mut best = sc.clone();
+        let mut sb = Sandbox::new("min");
+        let mut fails = |cand: &Scenario| c23::run_scenario(&mut sb, &gens, cand).findings.iter().any(|(c, _)| *c == class);
+        loop {
+            let mut improved = false;
+            for ri in 0..best.runs.len() {
+                if best.runs.len() > 1 {
+                    let mut c = best.clone();
+                    c.runs.remove(ri);
+                    if fails(&c) {
+                        best = c;
+                        improved = true;
+                        break;
+                    }
+                }
+                for fi in 0..best.runs[ri].plan.len() {
+                    let mut c = best.clone();
+                    c.runs[ri].plan.remove(fi);
+                    if fails(&c) {
+                        best = c;
+                        improved = true;
+                        break;
+                    }
+                }
+                if improved {
+                    break;
+                }
+            }
+            if !improved && best.final_gen.is_some() && !class.contains("no-progress") {
+                let mut c = best.clone();
+                c.final_gen = None;
+                if fails(&c) {
+                    best = c;
+                    improved = true;
+                }
+            }
+            if !improved {
+                break;
+            }
+        }
+        let final_ok = fails(&best);
+        let scen = if final_ok { best } else { sc };
+        let rf = ReplayFile { property: "C23".into(), sim: "store".into(), seed, class: class.clone(), detail: detail.clone(), gens: SHAPES.to_vec(), scenario: scen };
+        replay_path = format!("{}/C23-{}.json", qpz_core::replay_dir(), qpz_core::rng::hash_str(&serde_json::to_string(&rf.scenario).unwrap()));
+        std::fs::write(&replay_path, serde_json::to_string_pretty(&rf).unwrap()).unwrap();
+        println!("violation class={class}: {detail}");
+        println!("VIOLATION property=C23 replay={replay_path}");
+        exit = EXIT_VIOLATION;
+    }
+    let mut extra = serde_json::Map::new();
+    extra.insert("enumerated_publish_scenarios".into(), json!(enumerated));
+    extra.insert("enumerated_single_faults".into(), json!(n_singles));
+    extra.insert("enumerated_fault_pairs".into(), json!(n_pairs));
+    extra.insert("seeded_histories".into(), json!(n_histories));
+    extra.insert("full_pipeline_runs".into(), json!(n_gen));
+    extra.insert("builder_child_processes".into(), json!(acc.child_runs));
+    extra.insert("runs_per_hour".into(), json!((acc.evals as f64 / wall * 3600.0).round()));
+    extra.insert("faults_fired".into(), acc.fired.to_json());
+    extra.insert("reach_probes".into(), acc.probes.to_json());
+    extra.insert("distinct_abstract_states".into(), json!(acc.states.len()));
+    extra.insert("simulated_time".into(), json!("not applicable: the publisher has no timers; progress is measured in system calls"));
+    extra.insert("components".into(), json!({
+        "real": ["commit_staging_dir / commit_staging_dir_impl / create_staging_dir (via guarded forwarders)", "generate_all_circuit_binaries and the three stage generators (full-pipeline runs)", "std::fs", "a real directory tree on tmpfs"],
+        "stub": [],
+        "simulated": ["system-call outcomes (errno, short write) and process death at a chosen system call, by libc interposition in a child process"]
+    }));
+    if !replay_path.is_empty() {
+        extra.insert("replay".into(), json!(replay_path));
+    }
+    let ev = Evidence {
+        property_id: "C23".into(),
+        tier: tier.as_str().into(),
+        seed,
+        level: "fault_enumeration".into(),
+        evaluations: acc.evals,
+        distinct_nontrivial: acc.nontrivial.len() as u64,
+        rule: "one evaluation = one scenario (initial state x builder runs x fault plan) executed by the real publisher in child processes and judged on the real directory tree; distinct = distinct scenario; non-trivial = at least one injected fault actually fired. Singles: every call index of the publish routine x {crash, short write, 11 errnos} from 5 initial states; pairs: adaptive second index over the realised call sequence".into(),
+        samples: acc.samples.clone(),
+        exhaustive: Some(true),
+        extra,
+        assumptions: vec![
+            "crash model is process death: everything a completed system call did is on disk (the code never fsyncs and the property does not claim power-loss safety)".into(),
+            "exhaustive refers to parts (a): single and double faults of the publish routine for a 9-file set from the five initial states, with the stated errno sets; histories and full-pipeline runs are sampled".into(),
+            "symlinks, FIFOs and concurrent local writers are excluded (THREAT_MODEL.md)".into(),
+        ],
+        wall_s: wall,
+        violations,
+    };
+    ev.write(&qpz_core::evidence_path("C23")).unwrap_or_else(|e| harness_error(&format!("cannot write evidence: {e}")));
+    println!("C23: scenarios={} (singles {n_singles}, pairs {n_pairs}, histories {n_histories}, full pipeline {n_gen}) child_runs={} states={} wall={wall:.1}s", acc.evals, acc.child_runs, acc.states.len());
+    exit
+}
+
+fn main() {
+    let args: Vec<String> = std::env::args().collect();
+    if args.get(1).map(|s| s.as_str()) == Some("child") {
+        child::child_main(&args[2]);
+    }
+    let mut property = String::new();
+    let mut tier_arg = None;
+    let mut replay = None;
+    let mut i = 1;
+    while i < args.len() {
+        match args[i].as_str() {
+            "--property" => { property = args[i + 1].clone(); i += 1; }
+            "--tier" => { tier_arg = Some(args[i + 1].clone()); i += 1; }
+            "--replay" => { replay = Some(args[i + 1].clone()); i += 1; }
+            other => harness_error(&format!("unknown argument {other}")),
+        }
+        i += 1;
+    }
+    let seed = qpz_core::seed_from_env();
+    let tier = Tier::from_env_or(tier_arg.as_deref());
+    println!("VERIF_SEED={seed} property={property} tier={} sim=store", tier.as_str());
+    seam_selftest();
+    let rc = match property.as_str() {
+        "C23" => check_c23(seed, tier, replay),
+        other => harness_error(&format!("sim-store does not serve {other}")),
+    };
+    let _ = std::fs::remove_dir_all(sandbox::session_root());
+    std::process::exit(rc);
+}
